@@ -145,7 +145,7 @@ func (g *Gen) tr(e CExpr, env *Env) (string, VType) {
 			switch u := xt.Go.Underlying().(type) {
 			case *types.Slice:
 				r := g.elemRegion(u.Elem())
-				return fmt.Sprintf("(select (select %s (s-arr %s)) (+ (s-off %s) %s))", g.heapGet(env.heap, r), x, x, i), VType{Go: u.Elem()}
+				return fmt.Sprintf("(select (select %s (s-arr %s)) (at %s %s))", g.heapGet(env.heap, r), x, x, i), VType{Go: u.Elem()}
 			case *types.Map:
 				_, val, _ := g.mapRegions(u)
 				return fmt.Sprintf("(select (select %s %s) %s)", g.heapGet(env.heap, val), x, i), VType{Go: u.Elem()}
@@ -438,6 +438,40 @@ func (g *Gen) trQuant(e *CQuant, env *Env) (string, VType) {
 		binders = append(binders, fmt.Sprintf("(%s %s)", bn, vt.sort()))
 	}
 	body, _ := g.tr(e.Body, env)
+	var pats []string
+	for _, set := range e.Triggers {
+		var ts []string
+		for _, te := range set {
+			t, _ := g.tr(te, env)
+			ts = append(ts, t)
+		}
+		pats = append(pats, ":pattern ("+strings.Join(ts, " ")+")")
+	}
+	if len(pats) == 0 && !e.Forall {
+		// existential over integers: instantiate at every integer value the function computes
+		// (itrig is a trivially true marker predicate; the generator asserts it for int SSA values)
+		var ts, ts2, conj []string
+		allInt := true
+		for _, v := range e.Vars {
+			ev := env.vars[v.Name]
+			if ev.ty.sort() != "Int" {
+				allInt = false
+			}
+			ts = append(ts, "(itrig "+ev.term+")")
+			ts2 = append(ts2, "(itrig2 "+ev.term+")")
+			conj = append(conj, "(itrig "+ev.term+")")
+		}
+		if allInt {
+			body = "(and " + strings.Join(conj, " ") + " " + body + ")"
+			pats = append(pats, ":pattern ("+strings.Join(ts, " ")+")")
+			if len(e.Vars) == 1 {
+				pats = append(pats, ":pattern ("+strings.Join(ts2, " ")+")")
+			}
+		}
+	}
+	if len(pats) > 0 {
+		body = "(! " + body + " " + strings.Join(pats, " ") + ")"
+	}
 	for n, o := range saved {
 		if o == nil {
 			delete(env.vars, n)
@@ -598,6 +632,16 @@ func (g *Gen) trCall(e *CCall, env *Env) (string, VType) {
 		return g.trAs(e.Args[0], env, "Iface")
 	case "bytes":
 		return g.trAs(e.Args[0], env, "Bytes")
+	case "domsel":
+		// raw domain membership term of a map (for use in triggers): domsel(m, k)
+		m, mt := g.tr(e.Args[0], env)
+		k, _ := g.tr(e.Args[1], env)
+		u, ok := mt.Go.Underlying().(*types.Map)
+		if !ok {
+			trFail("domsel of non-map")
+		}
+		dom, _, _ := g.mapRegions(u)
+		return fmt.Sprintf("(select (select %s %s) %s)", g.heapGet(env.heap, dom), m, k), goBool
 	case "visited":
 		if env.visited == "" {
 			trFail("visited() outside a map-range loop")
